@@ -243,7 +243,7 @@ fn run_case(ctx: &mut Ctx, idx: u64) {
 }
 
 pub fn run(ctx: &mut Ctx) {
-    let n_cases = ctx.pick(5000, 120000);
+    let n_cases = ctx.pick(5000, 800000);
     for idx in 0..n_cases {
         if !ctx.mine(idx) {
             continue;
